@@ -119,7 +119,7 @@ def drive(ctx, exe, cmd, sub=None, extra=(), timeout=3000, env=None):
 
 # ---------------------------------------------------------------- TLC
 def _tlc_cmd(workers, heap='6g'):
-    return ['java', '-XX:+UseParallelGC', '-XX:ParallelGCThreads=%d' % max(2, min(8, workers)), '-Xmx' + heap, '-Xss64m',
+    return ['java', '-XX:+UseParallelGC', '-XX:ParallelGCThreads=%d' % max(2, min(8, workers)), '-XX:-UsePerfData', '-Xmx' + heap, '-Xss64m',
             '-cp', JAR, 'tlc2.TLC']
 
 
@@ -152,7 +152,7 @@ def tlc_mc(ctx, module, cfg, workers=8, timeout=1800, extra_files=(), expect_vio
         raise Inconclusive('TLC timed out on %s/%s' % (module, cfg))
     m = RE_STATES.findall(out)
     gen, dist = (int(m[-1][0]), int(m[-1][1])) if m else (0, 0)
-    ok = 'Model checking completed. No error has been found.' in out
+    ok = 'Model checking completed. No error has been found.' in out or (simulate and 'Finished in' in out and 'Error:' not in out)
     violated = re.findall(r'Invariant (\S+) is violated', out) + re.findall(r'Action property (\S+) is violated', out)
     rec = dict(module=module, cfg=cfg, generated=gen, distinct=dist, ok=ok, violated=violated, wall_s=round(time.time() - t0, 1))
     ctx.mc_runs.append(rec)
@@ -290,7 +290,7 @@ def _one_trace(args):
         fh.writelines(lines_header)
         fh.writelines(shard_lines)
     n = len(lines_header) + len(shard_lines)
-    cmd = _tlc_cmd(1, '4g') + ['-workers', '1', '-metadir', os.path.join(sd, 'md'), '-config', cfg + '.cfg', module + '.tla']
+    cmd = _tlc_cmd(1, '3g') + ['-workers', '1', '-metadir', os.path.join(sd, 'md'), '-config', cfg + '.cfg', module + '.tla']
     try:
         rc, out = sh(cmd, cwd=sd, timeout=timeout)
     except subprocess.TimeoutExpired:
@@ -317,7 +317,7 @@ def tlc_trace(ctx, module, tracefile, header=0, shards=8, timeout=1800, cfg=None
     lines = open(tracefile).readlines()
     head, body = lines[:header], lines[header:]
     if not body:
-        raise Inconclusive('empty trace %s' % tracefile)
+        return [], lines
     shards = max(1, min(shards, len(body) // 50 or 1))
     cuts = [0]
     per = len(body) / shards
